@@ -260,8 +260,9 @@ func c11Backend(c *Ctx) {
 	c.Floor(rule, 4, "store, defer, closure, forward")
 }
 
-func c11ClientTransports(c *Ctx) {
-	rule := "C11/client-transports"
+func c11ClientTransports(c *Ctx) { c11ClientTransportsAs(c, "C11/client-transports") }
+
+func c11ClientTransportsAs(c *Ctx, rule string) {
 	// websocket: conn from Upgrade closed on all exits; transport from NewWS closed on all exits
 	hg := c.Fn("cmd/rdpgw/protocol", "Gateway.HandleGatewayProtocol")
 	for _, ci := range callsIn(hg) {
